@@ -26,18 +26,20 @@ CONSTANTS Funs,        \* names of the functions under test
           Inputs,      \* abstract inputs
           Modes,       \* configurations (1 = zoneinfo, 2 = pytz); a singleton for configuration-free functions
           MaxCalls, MaxOps,
-          Memo         \* "none" | "shared" | "stale"
+          Fails,       \* BOOLEAN: failing calls occur in the histories
+          Memo         \* "none" | "shared" | "stale" | "residue"
 
 VARIABLES mode,        \* current configuration
           origin,      \* origin[h] = <<f, x, m>> : the call that produced handle h
           obj,         \* obj[h]    = identity of the object behind handle h
           content,     \* content[o] = <<x, m>> the object was computed from
           dirty,       \* identities of the objects that were mutated
-          hist         \* the operations so far
-vars == <<mode, origin, obj, content, dirty, hist>>
+          hist,        \* the operations so far
+          residue      \* a failed call left something behind that the next computed result will contain
+vars == <<mode, origin, obj, content, dirty, hist, residue>>
 
 N == Len(origin)
-Init == mode = 1 /\ origin = <<>> /\ obj = <<>> /\ content = <<>> /\ dirty = {} /\ hist = <<>>
+Init == mode = 1 /\ origin = <<>> /\ obj = <<>> /\ content = <<>> /\ dirty = {} /\ hist = <<>> /\ residue = FALSE
 
 Key(f, x, m) == IF Memo = "stale" THEN <<f, x, 0>> ELSE <<f, x, m>>
 Cached(f, x, m) == {h \in 1..N : Key(origin[h][1], origin[h][2], origin[h][3]) = Key(f, x, m)}
@@ -50,7 +52,7 @@ Call(f, x) ==
        THEN /\ obj' = Append(obj, obj[CHOOSE h \in Cached(f, x, mode) : TRUE])
             /\ UNCHANGED content
        ELSE /\ obj' = Append(obj, Len(content) + 1)
-            /\ content' = Append(content, <<x, mode>>)
+            /\ content' = Append(content, IF residue THEN <<x, mode, "tainted">> ELSE <<x, mode>>)
     /\ hist' = Append(hist, [op |-> "call", f |-> f, x |-> x, h |-> N + 1, m |-> mode])
     /\ UNCHANGED <<dirty, mode>>
 
@@ -68,9 +70,19 @@ Switch(m) ==
     /\ hist' = Append(hist, [op |-> "switch", f |-> "", x |-> 0, h |-> 0, m |-> m])
     /\ UNCHANGED <<origin, obj, content, dirty>>
 
-Next == \/ \E f \in Funs, x \in Inputs : Call(f, x)
-        \/ \E h \in 1..N : Mutate(h)
-        \/ \E m \in Modes : Switch(m)
+\* a call that FAILS (malformed input: the function raises).  Ref: it leaves nothing behind.  Memo = "residue" models an
+\* error path that leaves partial state in a module- or class-level buffer, which the next fresh result then contains.
+Fail(f) ==
+    /\ Fails /\ Len(hist) < MaxOps
+    /\ (hist # <<>> => hist[Len(hist)].op # "fail")
+    /\ residue' = (Memo = "residue")
+    /\ hist' = Append(hist, [op |-> "fail", f |-> f, x |-> 0, h |-> 0, m |-> mode])
+    /\ UNCHANGED <<origin, obj, content, dirty, mode>>
+
+Next == \/ \E f \in Funs, x \in Inputs : Call(f, x) /\ residue' = FALSE
+        \/ \E h \in 1..N : Mutate(h) /\ UNCHANGED residue
+        \/ \E m \in Modes : Switch(m) /\ UNCHANGED residue
+        \/ \E f \in Funs : Fail(f)
 Spec == Init /\ [][Next]_vars
 
 \* what the caller sees through h, and what it must see
